@@ -97,6 +97,9 @@ type C14Case struct {
 	// Local: compare only pairs whose source the added policy (the last policy of B) does not select for egress and
 	// whose destination it does not select for ingress
 	Local bool
+	// Exposure: both reports are computed with exposure analysis on (it must leave the connectivity untouched, and
+	// the relations hold for it just the same)
+	Exposure bool `json:",omitempty"`
 }
 
 var c14Kinds = []string{"addrule", "addpol_governed", "addpol_governed_ref", "addpol_ungoverned", "local", "ml2in", "splitrange", "splitcidr", "splitpolicy", "explicit_pt", "default_pt"}
@@ -114,7 +117,7 @@ func effDirs(p *NetPol) []string {
 func genC14(t *rapid.T) *C14Case {
 	wa := GenWorld(t, GenCfg{NoNamedRisk: true})
 	wb := wa.Clone()
-	c := &C14Case{A: wa, B: wb, Rel: "eq"}
+	c := &C14Case{A: wa, B: wb, Rel: "eq", Exposure: rapid.IntRange(0, 3).Draw(t, "c14exposure") == 0}
 	kind := rapid.SampledFrom(c14Kinds).Draw(t, "edit")
 	cfg := &GenCfg{NoNamedRisk: true}
 	applied := false
@@ -359,7 +362,7 @@ func checkC14(c *C14Case, st *VStats) *VFailure {
 	da, db := c.A.WriteDir(), c.B.WriteDir()
 	defer os.RemoveAll(da)
 	defer os.RemoveAll(db)
-	ra, rb := RunList(da, ListOpts{}), RunList(db, ListOpts{})
+	ra, rb := RunList(da, ListOpts{Exposure: c.Exposure}), RunList(db, ListOpts{Exposure: c.Exposure})
 	if ra.Panic != nil || rb.Panic != nil {
 		return &VFailure{Msg: fmt.Sprintf("list panicked: %v %v", ra.Panic, rb.Panic), Sig: "panic"}
 	}
